@@ -38,7 +38,7 @@ func init() {
 				}
 				return 500_000
 			}, Run: c14Options,
-				Min: map[string]int64{"decodes": 100000, "with_palette_options": 50000, "with_color_at_options": 50000, "options_written_by_the_caller": 10000, "nonsensical_user_colors": 20000, "gradient_looking_user_colors": 5000,
+				Min: map[string]int64{"decodes": 100000, "with_palette_options": 50000, "with_color_at_options": 50000, "options_written_by_the_caller": 10000, "gradient_stops_from_unwritten_registers": 50000, "gradient_stops_written_as_indirect_colours": 50000, "nonsensical_user_colors": 20000, "gradient_looking_user_colors": 5000,
 					"replacement_after_override": 5000, "paths": 100000, "flat": 50000, "suggested_palette_in_file": 30000, "non_rgba_color_models": 20000, "option_table_prefix_used_first": 10000, "replacement_equals_default_palette": 3000, "renderer_reused_after_same_palette": 100000, "same_graphic_decoded_before_with_other_options": 50000}},
 		},
 	})
@@ -64,6 +64,39 @@ func c14Options(c *run.Ctx, idx uint64) {
 	e.AbsLineTo(6, -6)
 	e.AbsLineTo(0, 6)
 	e.ClosePathEndPath()
+	// One time in two a gradient-filled path follows whose stops are colour
+	// registers the graphic never wrote (their initial contents, i.e. entries of
+	// the effective palette) and/or registers written with indirect colours.
+	if r.Chance(1, 2) {
+		n := r.Range(2, 4)
+		cbase := r.Intn(36)
+		e.SetNSel(50)
+		e.SetNReg(6, false, 0.03)
+		e.SetNReg(4, false, 0.5)
+		for i := 0; i < n; i++ {
+			e.SetNReg(0, true, float32(i)/float32(n-1))
+		}
+		for i := 0; i < n; i++ {
+			e.SetCSel(uint8(cbase + i))
+			switch r.Intn(4) {
+			case 0, 1:
+				c.Count("gradient_stops_from_unwritten_registers", 1)
+			case 2:
+				e.SetCReg(0, false, ivg.PaletteIndexColor(uint8(r.Intn(64))))
+				c.Count("gradient_stops_written_as_indirect_colours", 1)
+			default:
+				e.SetCReg(0, false, ivg.BlendColor(r.Byte(), 0x80|uint8(r.Intn(64)), 0x80|uint8(r.Intn(64))))
+				c.Count("gradient_stops_written_as_indirect_colours", 1)
+			}
+		}
+		e.SetCSel(45)
+		e.SetCReg(0, false, ivg.RGBAColor(gen.MakeGradientValue(cbase, 50, 0, r.Intn(4), n)))
+		e.StartPath(0, -20, -20)
+		e.AbsLineTo(20, -20)
+		e.AbsLineTo(20, 20)
+		e.AbsLineTo(-20, 20)
+		e.ClosePathEndPath()
+	}
 	// a valid gradient set up in fixed registers, so that a gradient-looking
 	// user colour would really render as one if it were not sanitised
 	e.SetNSel(20)
